@@ -112,7 +112,7 @@ def gen_groups():
     yield Case(line(["rp.1.1", "fs.1.2", "dispose", "tick.120", "gone.1", "gone.2", "tick.240"]), cls="dispose")
 
 
-def rand_history(rng, n_ops, streams, npush):
+def rand_history(rng, n_ops, streams, npush, static=False):
     ops = []
     nxt = [1]
     live = []   # (id, kind, stream)
@@ -129,7 +129,9 @@ def rand_history(rng, n_ops, streams, npush):
         s = rng.choice(streams)
         r = rng.random()
         if r < 0.14:
-            k = rng.choice(["rp", "rp", "rp", "ap", "cp", "pp"])
+            # (a group created by start_rtp_pub or AddCustomizePubSession has an empty app name; its static relay pull then dials
+            # rtmp://origin//stream, which the stub origin answers only after seconds: no pp / cp under static=1)
+            k = rng.choice(["rp", "rp", "rp", "ap", "rp" if static else "cp", "ap" if static else "pp"])
             i = nid()
             deny = ".deny" if (k in ("rp", "ap") and rng.random() < 0.08) else ""
             ops.append("%s.%d.%d%s" % (k, s, i, deny))
@@ -186,8 +188,9 @@ def gen_cases(tier, rng):
     n = 160 if tier == "quick" else 6000
     for k in range(n):
         npush = rng.choice([0, 0, 0, 1, 2])
-        cfg = ",".join(x for x in ["static=1" if rng.random() < 0.08 else "", "push=%d" % npush if npush else ""] if x) or "-"
-        ops = rand_history(rng, rng.choice([8, 14, 20, 30]), rng.choice([[1], [1, 2], [1, 2, 3]]), npush)
+        static = rng.random() < 0.08
+        cfg = ",".join(x for x in ["static=1" if static else "", "push=%d" % npush if npush else ""] if x) or "-"
+        ops = rand_history(rng, rng.choice([8, 14, 20, 30]), rng.choice([[1], [1, 2], [1, 2, 3]]), npush, static)
         yield Case(line(ops, cfg), cls="random-%d" % len(set(o.split(".")[1] for o in ops if o.split(".")[0] in ("rp", "ap", "cp", "pp", "fs", "rs", "ts", "ds"))))
 
 
